@@ -53,6 +53,9 @@ class Ctx:
 
 def load():
     hz = instr.install(common.REPO)
+    if z3 is not None:
+        from .symx import core as _core
+        _core.PATH_RESET = _core.make_module_resetter('hszinc')
     return hz
 
 
@@ -223,6 +226,11 @@ def same(hz, a, b, opts):
             return False
         if opts.get('zone_names', True):
             Z = sys.modules['hszinc.zoneinfo']
+            # zone identity as the zone database sees it (independent of hszinc's own naming function): a value sent in
+            # Europe/London must not come back in UTC even where both have offset zero
+            za, zb = getattr(a.tzinfo, 'zone', None), getattr(b.tzinfo, 'zone', None)
+            if za is not None and zb is not None and za != zb and not _same_zone_rules(a.tzinfo, b.tzinfo):
+                return False
             try:
                 if Z.timezone_name(a) != Z.timezone_name(b):      # same Haystack zone name (the map itself is C17's subject)
                     return False
@@ -303,6 +311,16 @@ def same_grid(hz, g1, g2, opts):
         if extra:
             return False
     return b_and(*out)
+
+
+def _same_zone_rules(z1, z2):
+    """two zone-database zones with different names are the same zone iff their rules coincide (aliases such as UTC / Etc/UTC)"""
+    t1, t2 = getattr(z1, '_utc_transition_times', None), getattr(z2, '_utc_transition_times', None)
+    if (t1 is None) != (t2 is None):
+        return False
+    if t1 is None:
+        return getattr(z1, '_utcoffset', 1) == getattr(z2, '_utcoffset', 2)
+    return list(t1) == list(t2) and [tuple(i) for i in z1._transition_info] == [tuple(i) for i in z2._transition_info]
 
 
 # ---------------------------------------------------------------------------
@@ -521,7 +539,7 @@ def catalogue(hz, version, extra=None):
             float('inf'), float('-inf'), float('nan'),
             D.Quantity(1.5, 'kW'), D.Quantity(-3, u'\u00b0C'), D.Quantity(2, '%'), D.Quantity(1, '$'), D.Quantity(1e-7, 'm/s'),
             D.Quantity(1.5, None), D.Quantity(2.0, ''),
-            datetime.date(2020, 2, 29), datetime.date(1, 1, 1), datetime.date(9999, 12, 31),
+            datetime.date(2020, 2, 29), datetime.date(1, 1, 1), datetime.date(9999, 12, 31), datetime.date(999, 12, 31), datetime.date(1000, 1, 1),
             datetime.time(0, 0, 0), datetime.time(23, 59, 59, 999999), datetime.time(1, 2, 3, 500000), datetime.time(12, 30),
             pytz.utc.localize(datetime.datetime(2020, 1, 1, 0, 0, 0)),
             Z.timezone('Paris').localize(datetime.datetime(2021, 7, 1, 12, 30, 15, 250000)),
@@ -550,6 +568,17 @@ def catalogue(hz, version, extra=None):
             vals.append(Z.timezone(name).localize(datetime.datetime(2021, 7, 1, 12, 0, 0)))
             vals.append(Z.timezone(name).localize(datetime.datetime(2021, 1, 1, 0, 30, 0, 123456)))
         return vals
+    if extra == 'pairs':
+        # the same text carried by two different kinds in neighbouring cells, both orders (anything that remembers a text's
+        # encoding without remembering its kind shows up here); ('pair', first, second)
+        vals = []
+        for t in ['a"b', 'x`y', 'p$q', 'a\\b', 'n\nl', ' ', u'\u03a9', 'p","q', 'x`,`y', '\\u0041', 'http://a/b#c', 'T', '1', 'a:b', 'x y']:
+            kinds = [lambda t: t, lambda t: D.Uri(t), lambda t: D.Ref('r', t)] + ([lambda t: D.XStr('Tx', t)] if v3 else [])
+            for i in range(len(kinds)):
+                for j in range(len(kinds)):
+                    if i != j:
+                        vals.append(('pair', kinds[i](t), kinds[j](t)))
+        return vals
     if extra == 'times':
         vals = []
         for us in list(range(0, 1000000, 2477)) + [1, 9, 10, 99, 100, 999999, 500000, 100000, 249, 1019, 261327]:
@@ -562,7 +591,11 @@ def catalogue(hz, version, extra=None):
         eg = hz.Grid(version=version, columns=[('e', [])])
         vals += [D.NA, D.XStr('hex', 'deadbeef'), D.XStr('b64', '3q2+7w=='), D.XStr('Span', 'today'),
                  [], [1, 'a', D.MARKER, None, D.Ref('r')], [[1], [2, [3, 'x']]], {}, {'a': 1, 'b': D.MARKER, 'c': 'x y'},
-                 [{'k': [D.NA, {'z': 2}]}], ng, eg, [ng, 5], {'g': ng}]
+                 [{'k': [D.NA, {'z': 2}]}], ng, eg, [ng, 5], {'g': ng},
+                 # homogeneous collections (a fast path for "all plain numbers / all strings" is a classic slip)
+                 [1, 2.5, -3], [float('inf'), 0.5], [float('nan')], [float('-inf'), 7, 1e20], [True, False], ['a', 'b"c', ''], [D.Quantity(1, 'm'), D.Quantity(2, 'm')],
+                 [datetime.date(987, 6, 5), datetime.date(2020, 1, 1)], [datetime.time(1, 2, 3)], [D.Uri('a'), D.Uri('b')], [None, None],
+                 {'a': float('inf'), 'b': 1}, {'n': float('nan')}, {'x': 'y'}, {'d': datetime.date(79, 8, 24)}]
     return vals
 
 
@@ -578,7 +611,7 @@ def run_catalog(job):
             continue
         for pos in positions:
             n += 1
-            msg = check_concrete(hz, job, v, pos)
+            msg = check_concrete(hz, job, v[1], pos, v[2]) if (isinstance(v, tuple) and v and v[0] == 'pair') else check_concrete(hz, job, v, pos)
             if msg is not None:
                 fails.append(dict(index=i, value=repr(v)[:80], position=pos, what=msg[:300]))
     return dict(job=job, status='exhausted', paths=n, aborted=0, reached=n, checks=0, solver_s=0.0, wall_s=round(time.time() - t0, 2),
@@ -640,7 +673,7 @@ def replay_catalog(hz, job, payload):
         if type(v).__name__ in skip:
             continue
         for pos in job['positions']:
-            msg = check_concrete(hz, job, v, pos)
+            msg = check_concrete(hz, job, v[1], pos, v[2]) if (isinstance(v, tuple) and v and v[0] == 'pair') else check_concrete(hz, job, v, pos)
             if i == payload[0] and pos == payload[1]:
                 return msg
     return None
